@@ -166,7 +166,7 @@ func main() {
 			cfgInfo = append(cfgInfo, map[string]interface{}{
 				"tags": tags, "packages": len(p.Pkgs), "functions_total": len(p.All), "functions_module": len(p.Mod),
 				"callgraph": "VTA over CHA (golang.org/x/tools/go/callgraph/vta)", "load_s": p.LoadS, "ssa_s": p.SSAS, "callgraph_s": p.CGS,
-				"functions_not_in_reference_tree": p.Inlined, "inlining_failed": p.InlineFail, "renamed_anchors": append([]string{}, aliasNotes...),
+				"functions_not_in_reference_tree": p.Inlined, "inlining_failed": p.InlineFail, "renamed_anchors": append([]string{}, aliasNotes...), "forwarded_anchors": p.forwards,
 			})
 			if p.InlineFail != "" {
 				r.Note("source-level inlining of new helpers failed (%s): analysed without it", p.InlineFail)
